@@ -54,12 +54,16 @@ C19_MUTANTS = [
 C20_MUTANTS = [
     # a function-local static scratch buffer in a const query
     ('static_scratch_in_get_halfface_vertices', T,
-     'std::vector<VertexHandle> TopologyKernel::get_halfface_vertices(HalfFaceHandle hfh, HalfEdgeHandle heh) const {',
-     'std::vector<VertexHandle> TopologyKernel::get_halfface_vertices(HalfFaceHandle hfh, HalfEdgeHandle heh) const {\n    static std::vector<int> verif_scratch; verif_scratch.assign(4, hfh.idx()); verif_scratch.clear();'),
+     'std::vector<VertexHandle> TopologyKernel::get_halfface_vertices(HalfFaceHandle hfh, HalfEdgeHandle heh) const\n{',
+     'std::vector<VertexHandle> TopologyKernel::get_halfface_vertices(HalfFaceHandle hfh, HalfEdgeHandle heh) const\n{\n    static std::vector<int> verif_scratch; verif_scratch.assign(4, hfh.idx()); verif_scratch.clear();'),
     # a lazily maintained statistic written from a const query
     ('lazy_counter_in_valence', 'src/OpenVolumeMesh/Core/TopologyKernel.hh',
      'inline size_t valence(FaceHandle _fh) const {',
      'inline size_t valence(FaceHandle _fh) const {\n        static size_t verif_calls = 0; ++verif_calls;'),
+    # a const query that "normalises" a cache row in place: the frame condition breaks (and the answers of other readers)
+    ('const_query_rotates_cache_row', 'src/OpenVolumeMesh/Core/TopologyKernel.hh',
+     'return incident_hfs_per_he_[halfedge_handle(_eh, 0)].size();',
+     'auto &verif_row = const_cast<TopologyKernel*>(this)->incident_hfs_per_he_[halfedge_handle(_eh, 0)];\n        if (verif_row.size() > 1) std::rotate(verif_row.begin(), verif_row.begin() + 1, verif_row.end());\n        return verif_row.size();'),
 ]
 
 
